@@ -369,7 +369,8 @@ example : ∀ n, getNode exSv [[105], sidName 1, [97]] = some n → ∀ s ∈ ex
 /-! ## 4. the marking invariant over the engine's own op lines
 
 `LineOK toks` (Reflector/MirrorProofs8.lean): if the line parses to a command (`parseCmd`), the command is `CmdOK` — only
-SUBSCRIBE lines are restricted (`GoodPath`).  `EInv st`: the engine's server state is `MReach` and every command waiting in
+SUBSCRIBE lines are restricted (`GoodPath`) — and the line is none of the server-side subtree ops `clone` / `save` /
+`restore` / `trees`.  `EInv st`: the engine's server state is `MReach` and every command waiting in
 an open batch is `CmdOK`. -/
 
 /-- every state of the engine `srv` on ANY op stream whose lines are `LineOK` (`case` resets, `pump`, `wping`, `attach`,
@@ -385,16 +386,23 @@ theorem marks_correct_engine (lines : List (List String)) (hl : ∀ toks ∈ lin
       subCount n.subs s.sid = pmMatchCount s.subs v :=
   (marks_correct (reach_engine lines hl) hv hn).1
 
-/-- what `LineOK` asks, exactly: only a line that parses to a SUBSCRIBE is restricted -/
+/-- what `LineOK` asks, exactly: a line that parses to a SUBSCRIBE must carry a `GoodPath`, and the line is none of the
+    server-side subtree ops `clone` / `save` / `restore` / `trees` (first token; they are not commands of `Cmd`) -/
 theorem lineOK_iff (toks : List String) :
-    LineOK toks ↔ ∀ p f, parseCmd toks = some (.sub p f) → GoodPath (adjustPrefix p (some defaultPrefix)) := by
+    LineOK toks ↔ (∀ p f, parseCmd toks = some (.sub p f) → GoodPath (adjustPrefix p (some defaultPrefix))) ∧
+      isSubtreeOp toks = false := by
+  unfold LineOK
   constructor
-  · intro h p f hp; exact h _ hp
-  · intro h c hc
+  · rintro ⟨h, h2⟩
+    exact ⟨fun p f hp => h _ hp, by simpa using h2⟩
+  · rintro ⟨h, h2⟩
+    refine ⟨fun c hc => ?_, by simp [h2]⟩
     cases c <;> first | exact h _ _ hc | trivial
 
-/-! Non-vacuity: a line that is no command is `LineOK` (a reachable state with an accepted SUBSCRIBE: `exSv_reach`). -/
-example : LineOK ["pump"] := by intro c hc; simp [parseCmd] at hc
+/-! Non-vacuity: a line that is no command is `LineOK` (a reachable state with an accepted SUBSCRIBE: `exSv_reach`); a
+`clone` line is not. -/
+example : LineOK ["pump"] := ⟨by intro c hc; simp [parseCmd] at hc, by decide⟩
+example : ¬ LineOK ["clone", "0", "0", "x", "x"] := fun h => h.2 (by decide)
 
 /-! ## 5. the structured twin of delivery (one session)
 
